@@ -119,8 +119,10 @@ def run(prog: Program, L: Ledger) -> None:
             fn = norm(st.value.func)
             if fn == "self.atoms.set_momenta":
                 setmom = t.tr(st.value.args[0])
-                # what get_momenta() returns afterwards (no constraints): the value just set
+                # what get_momenta() returns afterwards (no constraints): the value just set; get_velocities() divides it by
+                # the masses stored ON THE ATOMS, which are not the driver's shaped_masses once update_masses() was used
                 vocab.bind("self.atoms.get_momenta()", setmom)
+                vocab.bind("self.atoms.get_velocities()", sp.sympify(setmom) / vocab.sym("Matoms", positive=True))
             elif fn == "self.atoms.set_positions":
                 setpos = (st, t.tr(st.value.args[0]))
     # derived attributes: `self.X` read by the step formula but computed elsewhere from other
